@@ -127,14 +127,16 @@ pub open spec fn zip(c: Option<Comp>, plain: Seq<u8>) -> Option<Seq<u8>> { match
         // the receiver handed back is the other end of the sender registered under the id handed back
         final(self).pending_requests.registered(r.0, r.1.chan()),                                                  // [C04.receiver_paired_with_its_request_id]
 //@end
-// send the request, then wait for the value delivered on THIS call's channel; no lock of the shared write half is held while waiting
-//@fn client/src/streams/request_reply/requestor.rs :: - :: exchange [props=C04 C12] [guards=*] [awaitfn=vx_recv]
+// send the request, then wait for the value delivered on THIS call's channel.  (No lock-guard monitor here: since 923ac9d the
+// caller's time-out also covers the wait for the write half, so a lock kept while waiting serialises requests but cannot make
+// one outlive its time-out -- C04 does not forbid that.)
+//@fn client/src/streams/request_reply/requestor.rs :: - :: exchange [props=C04 C12] [awaitfn=vx_recv]
     ensures
         r is Ok ==> r->Ok_0 == oneshot::delivered::<Bytes>(rx.chan()),                                            // [C04.reply_comes_from_this_calls_channel]
 //@end
 // once its reply channel is registered, a request waits for nothing outside its timeout: not for the write half, not for the
 // stream to take the frame, not for the reply (the pending table's own lock, taken by queue_request for one insert, is the exception)
-//@fn client/src/streams/request_reply/requestor.rs :: Requestor :: request [props=C04 C12] [guards=*] [timedawaits=queue_request:C04.every_wait_of_a_request_is_under_its_timeout]
+//@fn client/src/streams/request_reply/requestor.rs :: Requestor :: request [props=C04 C12] [timedawaits=queue_request:C04.every_wait_of_a_request_is_under_its_timeout]
     requires
         alloc_budget() >= usize::MAX,
     ensures
